@@ -207,6 +207,12 @@ static void attribute(const Desc& d, const Facts& f, const Plan& plan, const Wor
             o.level = "C"; add(P, "C19"); add(P, "C17"); add(P, "C03");
             // the configuration that was activated differs (the ids of the regions are set before the entries run)
             if (O->kind == K_N || O->kind == K_X) { add(P, "C02"); if (f.history) add(P, "C08"); if (f.pseudo) add(P, "C09"); if (f.nested) add(P, "C07"); }
+            // the configuration changed although the last thing that happened was a guard that rejected (C02: "no state change at all")
+            for (size_t k = i; k-- > 0 && k < X.size(); ) {
+                if (X[k].kind == K_POST || X[k].kind == K_THROW) continue;
+                if (X[k].kind == K_G && X[k].val == 0) add(P, "C02");
+                break;
+            }
             o.detail = "active state ids observed inside the behaviour differ"; add_context(); return;
         }
         if (sel) {
